@@ -192,6 +192,10 @@ pub fn arith(m: &mut M, r: &mut Rng, n: u64, which: &str) {
                 m.call("arith", "add", sp(r), Some(6), &[A::R(3), A::R(1)]);
             }
         }
+        if which == "mul" && i % 2 == 1 {
+            mul_worst_group(m, r);
+            continue;
+        }
         if all || which == "mul" {
             let fm = if r.below(4) == 0 { *r.pick(&[1.0, -1.0, 0.0, -0.0, 2.0, 0.5, -4.0]) } else { fa };
             m.call("arith", "mul", sp(r), Some(2), &[A::R(0), A::R(1)]);
@@ -221,6 +225,50 @@ pub fn arith(m: &mut M, r: &mut Rng, n: u64, which: &str) {
             rem_group(m, r);
         }
     }
+}
+
+/// Multiplication operands steered towards the worst case of the double-word x f64 / double-word
+/// algorithms: high words just above a power of two, low word within a few ulps of the tie, and the
+/// second factor chosen (among 48 neighbours) so that the rounding error of hi*y is as close to half
+/// an ulp as possible with the sign of the low-word contribution.  Host arithmetic is used here only
+/// to CHOOSE operands; the verdict is the specification's.
+fn mul_worst_group(m: &mut M, r: &mut Rng) {
+    let e1 = r.range(-200, 200) as i32;
+    let e2 = r.range(-200, 200) as i32;
+    let frac_a = r.next() & ((1u64 << r.range(20, 50)) - 1);
+    let xh = f64::from_bits((((e1 + 1023) as u64) << 52) | frac_a);
+    let half = pow2(e1 - 53);
+    let j = r.below(4) as f64;
+    let s = if r.coin() { 1.0 } else { -1.0 };
+    let xl = s * (half - j * pow2(e1 - 53 - 52));
+    let frac_b = r.next() & ((1u64 << r.range(20, 50)) - 1);
+    let y0 = f64::from_bits((((e2 + 1023) as u64) << 52) | frac_b);
+    let mut best = y0;
+    let mut best_score = -1.0f64;
+    let mut y = y0;
+    for _ in 0..48 {
+        let p = xh * y;
+        let e = xh.mul_add(y, -p);
+        let u = pow2(exponent(p) - 52);
+        let score = (e / u) * s; // want the error term to have the sign of the low word, near +1/2
+        if score > best_score {
+            best_score = score;
+            best = y;
+        }
+        y = next_up_mag(y);
+    }
+    let sy = if r.coin() { 1.0 } else { -1.0 };
+    if !m.load(0, xh, xl) {
+        m.load(0, xh, next_down_mag(xl));
+    }
+    let yl = lo_candidate(r, best);
+    if !m.load(1, sy * best, sy * yl) {
+        m.load(1, sy * best, 0.0);
+    }
+    m.call("arith", "mul", *r.pick(&SP_TT), Some(2), &[A::R(0), A::F(sy * best)]);
+    m.call("arith", "mul", *r.pick(&SP_FT), Some(2), &[A::F(sy * best), A::R(0)]);
+    m.call("arith", "mul", *r.pick(&SP_TT), Some(3), &[A::R(0), A::R(1)]);
+    m.call("arith", "mul", *r.pick(&SP_TT), Some(3), &[A::R(1), A::R(0)]);
 }
 
 /// operands for % with |a/b| <= 2^90 (b replaced so that the quotient is of the wanted kind)
